@@ -42,6 +42,7 @@
  *   part:<j>:<errno> transfer j bytes now, fail the *next* call (one shot)
  *   ppart:<j>:<errno> transfer j bytes now, fail every later call
  *   erange           (getcwd) fail with ERANGE
+ *   zero             (write) return 0: nothing transferred, no error
  *
  * Log record:  <seq> <kind> <fd> <req> <ret> <errno> <act> <hex-or-dash>\n
  *   kind: W write, R script read, r other read, O script open, o other open,
@@ -71,7 +72,7 @@
 #define MAX_RULES 64
 #define MAX_FDS 1024
 
-enum act_kind { A_NONE = 0, A_SHORT, A_EINTR, A_ERR, A_PERR, A_PART, A_PPART, A_ERANGE };
+enum act_kind { A_NONE = 0, A_SHORT, A_EINTR, A_ERR, A_PERR, A_PART, A_PPART, A_ERANGE, A_ZERO };
 
 struct rule {
     int fd;        /* for writes */
@@ -186,6 +187,7 @@ static void parse_action(const char **pp, struct rule *r) {
     if (starts(p, "short:")) { p += 6; r->kind = A_SHORT; r->arg = parse_long(&p); }
     else if (starts(p, "eintr")) { p += 5; r->kind = A_EINTR; }
     else if (starts(p, "erange")) { p += 6; r->kind = A_ERANGE; }
+    else if (starts(p, "zero")) { p += 4; r->kind = A_ZERO; }
     else if (starts(p, "err:")) { p += 4; r->kind = A_ERR; r->err = (int)parse_long(&p); }
     else if (starts(p, "perr:")) { p += 5; r->kind = A_PERR; r->err = (int)parse_long(&p); }
     else if (starts(p, "part:")) { p += 5; r->kind = A_PART; r->arg = parse_long(&p); if (*p == ':') p++; r->err = (int)parse_long(&p); }
@@ -383,6 +385,12 @@ static ssize_t do_write(int rfd, const void *buf, size_t count) {
             errno = r->err;
             log_event('W', fd, (long)count, -1, r->err, "perr", NULL, 0);
             return -1;
+        case A_ZERO:
+            if (count > 0) {
+                log_event('W', fd, (long)count, 0, 0, "zero", NULL, 0);
+                return 0;
+            }
+            break;
         case A_SHORT:
             if (r->arg >= 1 && (size_t)r->arg < allow) { allow = (size_t)r->arg; act = "short"; }
             break;
